@@ -244,6 +244,255 @@ func c01RunHalfClose(r *vrt.Run, c c01HalfCloseCase) (fs []vrt.Finding) {
 	return fs
 }
 
+// ---- Idle gaps between queries on one connection, with a request timeout -------------------
+
+// c01IdleGapCase is a history on one connection (or, for udp, on one server):
+// query, idle gap, query, ...; the servers are built with a request-context
+// timeout T (ConfigBase.RequestContext = NewTimeoutContextConstructor(T)) and
+// the default TCP idle timeout (30 s) >> T.  Time is the bubble's virtual
+// clock.
+type c01IdleGapCase struct {
+	T string `json:"t"` // "tcp", "dot" or "udp"
+	// GapsMs are the idle gaps before the 2nd, 3rd, ... query, in
+	// milliseconds.
+	GapsMs []int `json:"gaps_ms"`
+}
+
+const c01RequestTimeout = time.Second
+
+// c01IdleGaps: 0, T/2, just under T, just over T, 3T, just under the idle
+// timeout.
+var c01IdleGaps = []int{0, 500, 999, 1001, 3000, 29900}
+
+// c01ClockConn is an in-memory connection that honours read and write
+// deadlines against the (virtual) clock: a Read with nothing to deliver blocks
+// until the client sends more, closes, or the read deadline passes; a Write
+// past the write deadline fails with a timeout error.
+type c01ClockConn struct {
+	mu     sync.Mutex
+	in     chan []byte
+	buf    []byte
+	rdl    time.Time
+	wdl    time.Time
+	out    []byte
+	events []string
+	closes int
+}
+
+type c01ClockTimeout struct{}
+
+func (c01ClockTimeout) Error() string   { return "i/o timeout" }
+func (c01ClockTimeout) Timeout() bool   { return true }
+func (c01ClockTimeout) Temporary() bool { return true }
+func (c01ClockTimeout) Unwrap() error   { return os.ErrDeadlineExceeded }
+
+func (c *c01ClockConn) Read(p []byte) (n int, err error) {
+	c.mu.Lock()
+	if c.closes > 0 {
+		c.mu.Unlock()
+
+		return 0, net.ErrClosed
+	}
+	if len(c.buf) == 0 {
+		rdl := c.rdl
+		c.mu.Unlock()
+		var timeout <-chan time.Time
+		if !rdl.IsZero() {
+			d := time.Until(rdl)
+			if d <= 0 {
+				return 0, &net.OpError{Op: "read", Net: "tcp", Err: c01ClockTimeout{}}
+			}
+			tm := time.NewTimer(d)
+			defer tm.Stop()
+			timeout = tm.C
+		}
+		select {
+		case b, ok := <-c.in:
+			if !ok {
+				return 0, io.EOF
+			}
+			c.mu.Lock()
+			c.buf = b
+		case <-timeout:
+			c.mu.Lock()
+			c.events = append(c.events, "read deadline passed")
+			c.mu.Unlock()
+
+			return 0, &net.OpError{Op: "read", Net: "tcp", Err: c01ClockTimeout{}}
+		}
+	}
+	n = copy(p, c.buf)
+	c.buf = c.buf[n:]
+	c.mu.Unlock()
+
+	return n, nil
+}
+
+func (c *c01ClockConn) Write(p []byte) (n int, err error) {
+	c.mu.Lock()
+	defer c.mu.Unlock()
+	switch {
+	case c.closes > 0:
+		c.events = append(c.events, "write after close")
+
+		return 0, net.ErrClosed
+	case !c.wdl.IsZero() && !c.wdl.After(time.Now()):
+		c.events = append(c.events, fmt.Sprintf("write of %d octets FAILS: write deadline %s ago", len(p), time.Since(c.wdl)))
+
+		return 0, &net.OpError{Op: "write", Net: "tcp", Err: c01ClockTimeout{}}
+	}
+	c.events = append(c.events, fmt.Sprintf("write %d", len(p)))
+	c.out = append(c.out, p...)
+
+	return len(p), nil
+}
+
+func (c *c01ClockConn) Close() error {
+	c.mu.Lock()
+	defer c.mu.Unlock()
+	c.closes++
+	c.events = append(c.events, "close")
+
+	return nil
+}
+func (c *c01ClockConn) LocalAddr() net.Addr  { return c01TCPLocal }
+func (c *c01ClockConn) RemoteAddr() net.Addr { return c01TCPRemote }
+func (c *c01ClockConn) SetDeadline(t time.Time) error {
+	c.mu.Lock()
+	defer c.mu.Unlock()
+	c.rdl, c.wdl = t, t
+
+	return nil
+}
+func (c *c01ClockConn) SetReadDeadline(t time.Time) error {
+	c.mu.Lock()
+	defer c.mu.Unlock()
+	c.rdl = t
+
+	return nil
+}
+func (c *c01ClockConn) SetWriteDeadline(t time.Time) error {
+	c.mu.Lock()
+	defer c.mu.Unlock()
+	c.wdl = t
+
+	return nil
+}
+
+func (c *c01ClockConn) snapshot() (out []byte, events []string, closes int) {
+	c.mu.Lock()
+	defer c.mu.Unlock()
+
+	return append([]byte{}, c.out...), append([]string{}, c.events...), c.closes
+}
+
+// c01RunIdleGap runs one history; it must be called inside a synctest bubble.
+func c01RunIdleGap(r *vrt.Run, c c01IdleGapCase) (fs []vrt.Finding) {
+	conf := ConfigDNS{
+		ConfigBase: ConfigBase{
+			Name: "c01-idle-gap", Addr: "192.0.2.53:53", Handler: c01Handler{}, Disposer: c01Disposer,
+			RequestContext: NewTimeoutContextConstructor(c01RequestTimeout),
+		},
+		MaxUDPRespSize: dns.MaxMsgSize,
+	}
+	proto := ProtoDNS
+	if c.T == "dot" {
+		proto = ProtoDoT
+	}
+	s := newServerDNS(proto, conf)
+	defer s.workerPool.Release()
+	s.started = true
+	n := len(c.GapsMs) + 1
+	query := func(i int) (*dns.Msg, []byte) {
+		m := vdns.NewReq(uint16(0x7e00+i), fmt.Sprintf("Ok-%d.Idle-Gap.Example.", i), dns.TypeA, dns.ClassINET)
+
+		return m, c01MustPack(m)
+	}
+	judge := func(i int, obs c01TObs, events []string) {
+		req, wire := query(i)
+		q := req.Question[0]
+		gap := "first query"
+		if i > 0 {
+			gap = fmt.Sprintf("after an idle gap of %d ms (request timeout %s, idle timeout %s)", c.GapsMs[i-1], c01RequestTimeout, s.conf.TCPIdleTimeout)
+		}
+		for _, f := range c01CheckQueryOn(r, c.T, wire, req, c01H(q.Name, q.Qtype, q.Qclass), obs) {
+			if f.Key == c.T+"/no-response-to-query" {
+				f.Key = c.T + "/accepted-query-unanswered-after-idle-gap"
+			}
+			f.Detail = fmt.Sprintf("query %d of %d, %s: %s; connection: %v", i+1, n, gap, f.Detail, events)
+			fs = append(fs, f)
+		}
+	}
+	r.Trans(n)
+
+	if c.T == "udp" {
+		// Control: no connection state between datagrams.
+		for i := 0; i < n; i++ {
+			if i > 0 {
+				time.Sleep(time.Duration(c.GapsMs[i-1]) * time.Millisecond)
+			}
+			_, wire := query(i)
+			pc := &c01PacketConn{in: wire}
+			obs := c01TObs{}
+			var err error
+			obs.Panicked = vrt.Catch(func() { err = s.acceptUDPMsg(context.Background(), pc) })
+			synctest.Wait()
+			if err != nil {
+				obs.Garbled = "acceptUDPMsg: " + err.Error()
+			}
+			c01DecodeDatagrams(pc.sent, &obs)
+			judge(i, obs, nil)
+		}
+		r.Class(fmt.Sprintf("idlegap:udp %d queries", n))
+
+		return fs
+	}
+
+	conn := &c01ClockConn{in: make(chan []byte)}
+	done := make(chan struct{})
+	s.wg.Add(1)
+	go func() {
+		defer close(done)
+		s.serveTCPConn(context.Background(), conn)
+	}()
+	seen := 0
+	answered := 0
+	for i := 0; i < n; i++ {
+		if i > 0 {
+			time.Sleep(time.Duration(c.GapsMs[i-1]) * time.Millisecond)
+		}
+		_, wire := query(i)
+		_, _, closes := conn.snapshot()
+		if closes > 0 {
+			judge(i, c01TObs{Closed: true}, []string{"the server closed the connection before this query could be sent"})
+
+			continue
+		}
+		conn.in <- c01Frame(wire)
+		synctest.Wait()
+		out, events, closes := conn.snapshot()
+		obs := c01TObs{Closed: closes > 0}
+		c01DecodeFrames(out[seen:], &obs)
+		seen = len(out)
+		if len(obs.Msgs) == 1 {
+			answered++
+		}
+		judge(i, obs, events)
+	}
+	close(conn.in)
+	synctest.Wait()
+	select {
+	case <-done:
+	default:
+		fs = append(fs, vrt.F(c.T+"/connection-not-released-after-read-loop-ended", "serveTCPConn did not return after the client closed the connection")...)
+	}
+	r.Class(fmt.Sprintf("idlegap:%s gaps %v ms -> %d/%d answered", c.T, c.GapsMs, answered, n))
+	_, events, _ := conn.snapshot()
+	r.State(fmt.Sprintf("idlegap|%+v|%d", c, len(events)))
+
+	return fs
+}
+
 func TestVerifC01HalfClose(t *testing.T) {
 	log.SetOutput(io.Discard)
 	synctest.Test(t, func(t *testing.T) {
@@ -266,6 +515,24 @@ func TestVerifC01HalfClose(t *testing.T) {
 				}
 			},
 			func(c c01HalfCloseCase) []vrt.Finding { return c01RunHalfClose(r, c) })
+		r.Bound("idle_gap_histories", vrt.Pick(r, "{tcp,dot,udp} x query, gap, query over gaps "+fmt.Sprint(c01IdleGaps)+" ms (request timeout 1 s, idle timeout 30 s)",
+			"{tcp,dot,udp} x query, gap, query [, gap, query] over gaps "+fmt.Sprint(c01IdleGaps)+" ms (request timeout 1 s, idle timeout 30 s)"))
+		vrt.Part(r, "tcp-idle-gap",
+			func(emit func(c01IdleGapCase)) {
+				for _, tr := range []string{"tcp", "dot", "udp"} {
+					for _, g := range c01IdleGaps {
+						emit(c01IdleGapCase{T: tr, GapsMs: []int{g}})
+					}
+					if r.Thorough() {
+						for _, g1 := range c01IdleGaps {
+							for _, g2 := range c01IdleGaps {
+								emit(c01IdleGapCase{T: tr, GapsMs: []int{g1, g2}})
+							}
+						}
+					}
+				}
+			},
+			func(c c01IdleGapCase) []vrt.Finding { return c01RunIdleGap(r, c) })
 		r.Finish()
 		os.Exit(0)
 	})
